@@ -285,8 +285,10 @@ def _main(pid, args, seed):
         eprint(f"HARNESS-ERROR property={pid} evidence does not validate: {str(e)[:500]}")
         if not violations:
             return 2
-    os.makedirs(os.path.join(VERIF_DIR, "evidence"), exist_ok=True)
-    with open(os.path.join(VERIF_DIR, "evidence", f"{pid}.json"), "w") as f:
+    # (bin/seedtest points this elsewhere: a run against a deliberately broken copy must not replace the evidence of the real tree)
+    evdir = os.environ.get("VERIF_EVIDENCE_DIR") or os.path.join(VERIF_DIR, "evidence")
+    os.makedirs(evdir, exist_ok=True)
+    with open(os.path.join(evdir, f"{pid}.json"), "w") as f:
         f.write(text + "\n")
 
     print(
